@@ -52,6 +52,7 @@ type Spec struct {
 	MaxSteps     int                 `json:"max_steps,omitempty"`
 	MaxTasks     int                 `json:"max_tasks,omitempty"`
 	KeepEvents   bool                `json:"keep_events,omitempty"`
+	StdoutFault  *simrt.StdoutFault  `json:"stdout_fault,omitempty"`
 }
 
 // Out is what one run produced.
@@ -224,7 +225,7 @@ func RunFunc(spec *Spec, root func()) *Out {
 				},
 				Sched: st, MapSeed: spec.Sched.MapSeed, MapMode: spec.Sched.MapMode, LockYield: spec.Sched.LockYield,
 				Bias: spec.Sched.Bias, Workers: spec.Sched.Workers, MaxSteps: spec.MaxSteps, MaxTasks: spec.MaxTasks,
-				FS: fs, Wait: synctest.Wait, KeepEvents: spec.KeepEvents,
+				FS: fs, Wait: synctest.Wait, KeepEvents: spec.KeepEvents, StdoutFault: spec.StdoutFault,
 			}
 			argv := spec.Argv
 			if root != nil {
